@@ -29,7 +29,7 @@ def rust_adt(fb, suffix, crate=None):
 
 
 def run(ctx, chk):
-    fb = ctx.facts('dev')
+    fb = ctx.facts()
     chk.explanation = ('Y1: offsets/widths/total of ShmHeader + ClockErrorBound (rustc layout_of) = table parsed from the bit diagram '
                        'and type list of PROTOCOL.md. Y2: ClockStatus discriminants = doc. Y3: FFI #[repr(C)] enums/structs = clang\'s '
                        'enumerator values and record layouts of clockbound.h. Y4: the three exported signatures agree. Y5: both clients '
